@@ -160,8 +160,10 @@ pub fn run_once(setup: &Setup, prefix: &[usize]) -> Exec {
                                         pos += k;
                                         buffered += k;
                                         if !gzip && buffered >= chunk {
-                                            handed += buffered;
-                                            buffered = 0;
+                                            // whole chunks are handed over; a write that accepts more
+                                            // than the current chunk keeps the tail in the writer
+                                            handed += buffered - buffered % chunk;
+                                            buffered %= chunk;
                                         }
                                         Ok(k)
                                     }
@@ -460,7 +462,7 @@ pub fn judge(setup: &Setup, x: &Exec) -> Vec<Finding> {
                     }
                     buffered += k;
                     if !setup.gzip && buffered >= setup.chunk {
-                        buffered = 0;
+                        buffered %= setup.chunk;
                     }
                 }
                 (POp::F, Ok(_)) => {
@@ -681,6 +683,11 @@ pub fn families(tier: Tier, for_c11: bool) -> Vec<Family> {
         // code that only ever calls lock(), but the only way a try_lock can find the mutex held
         {
             let mut setups: Vec<Setup> = programs(&alpha_abort, tier.pick(2, 3)).into_iter().map(|p| mk(p, WakerPolicy::Choose, 1, 1, None, false, false)).collect();
+            // "flush returned => the consumer gets the bytes without further producer action":
+            // the producer waits for delivery after its flush
+            for p in [vec![POp::W(1), POp::F, POp::Wait], vec![POp::W(c), POp::Wait], vec![POp::W(1), POp::F, POp::Wait, POp::W(1), POp::F, POp::Wait], vec![POp::W(c + 1), POp::F, POp::Wait]] {
+                setups.push(mk(p, WakerPolicy::Choose, 1, 1, None, false, false));
+            }
             for s in setups.iter_mut() {
                 s.cs_preempt = true;
             }
